@@ -341,3 +341,24 @@ Definition chk_parity (a : arg) (expected : res bool) : bool := res_eqb Bool.eqb
 From Dyce Require Export Model.Rng.
 Definition chk_bits (k : Z) (bs : list Z) (expected : Z) : bool :=
   (bits_of k bs =? expected) && (Z.of_nat (length bs) =? numbytes k) && (0 <=? expected) && (expected <? 2 ^ k).
+
+(* ---- C15: the store ---- *)
+From Dyce Require Export Model.Store.
+Definition obs_eqb (a b : observation) : bool :=
+  match a, b with
+  | ObsH i1 t1, ObsH i2 t2 => hist_eqb i1 i2 && (t1 =? t2)
+  | ObsP d1, ObsP d2 => list_eqb hist_eqb d1 d2
+  | ObsR s1 a1, ObsR s2 a2 => list_eqb Nat.eqb s1 s2 && Nat.eqb a1 a2
+  | _, _ => false
+  end.
+(* replay the operations; the results (object id or exception) and the final observation of EVERY
+   object must be the implementation's *)
+Fixpoint store_run (s : store) (ops : list op) : store * list (res nat) :=
+  match ops with
+  | [] => (s, [])
+  | o :: rest => let '(s1, r) := step s o in let '(s2, rs) := store_run s1 rest in (s2, r :: rs)
+  end.
+Definition chk_store (ops : list op) (results : list (res nat)) (final : list observation) : bool :=
+  let '(s, rs) := store_run store0 ops in
+  list_eqb (res_eqb Nat.eqb) rs results &&
+  list_eqb obs_eqb (map (observe s) (seq 0 (length (objs s)))) final.
